@@ -4,6 +4,7 @@
 -/
 import SolverzModel.Core.Mass
 import SolverzModel.Proofs.Mass
+import SolverzModel.Proofs.Sel
 namespace Solverz
 
 /-- **Single 1 per ODE element, zero rows for algebraic equations.**
@@ -79,11 +80,11 @@ theorem C04_mulVec (d : DaeDecl) (rs : List REq) (T : List (Nat × Nat)) (R C : 
   rw [C04_row_exact d rs T R C hres hm k hk i hi]
   split <;> simp [Rat.add_zero]
 
-/-- **diff_var resolution.**  The selected columns of `x`, `x[i]`, `x[a:b]` all lie inside the
-variable's own range of the flat vector and are strictly increasing (distinct elements). -/
+/-- **diff_var resolution.**  The selected columns of `x`, `x[i]`, `x[a:b]`, `x[a:b:s]`, `x[[k…]]` all lie inside the
+variable's own range of the flat vector; for the contiguous forms they are strictly increasing (distinct elements). -/
 theorem C04_cols_within (vars : List Nat) (dv : DiffVar) (cols : List Nat) (h : dv.cols vars = .ok cols) :
     ∃ v n, vars[v]? = some n ∧ (∀ c ∈ cols, varStart vars v ≤ c ∧ c < varStart vars v + n) ∧
-      cols.Pairwise (· < ·) := by
+      ((∀ w a b st, dv ≠ .strided w a b st) → (∀ w ks, dv ≠ .pick w ks) → cols.Pairwise (· < ·)) := by
   cases dv with
   | whole v =>
     simp only [DiffVar.cols] at h
@@ -91,7 +92,7 @@ theorem C04_cols_within (vars : List Nat) (dv : DiffVar) (cols : List Nat) (h : 
     · cases h
     · rename_i n hn
       cases h
-      exact ⟨v, n, hn, fun c hc => cols_range_mem _ _ c hc, cols_range_pairwise _ _⟩
+      exact ⟨v, n, hn, fun c hc => cols_range_mem _ _ c hc, fun _ _ => cols_range_pairwise _ _⟩
   | idx v i =>
     simp only [DiffVar.cols] at h
     split at h
@@ -99,7 +100,7 @@ theorem C04_cols_within (vars : List Nat) (dv : DiffVar) (cols : List Nat) (h : 
     · rename_i n hn
       cases h
       have hb := sliceBounds_le n i (i + 1)
-      refine ⟨v, n, hn, fun c hc => ?_, cols_range_pairwise _ _⟩
+      refine ⟨v, n, hn, fun c hc => ?_, fun _ _ => cols_range_pairwise _ _⟩
       have := cols_range_mem _ _ c hc
       omega
   | slice v a b =>
@@ -109,9 +110,43 @@ theorem C04_cols_within (vars : List Nat) (dv : DiffVar) (cols : List Nat) (h : 
     · rename_i n hn
       cases h
       have hb := sliceBounds_le n (a.getD 0) (b.getD n)
-      refine ⟨v, n, hn, fun c hc => ?_, cols_range_pairwise _ _⟩
+      refine ⟨v, n, hn, fun c hc => ?_, fun _ _ => cols_range_pairwise _ _⟩
       have := cols_range_mem _ _ c hc
       omega
+  | strided v a b st =>
+    simp only [DiffVar.cols] at h
+    split at h
+    · cases h
+    · rename_i n hn
+      split at h
+      · cases h
+      · rename_i hs
+        cases h
+        refine ⟨v, n, hn, fun c hc => ?_, fun hne _ => absurd rfl (hne v a b st)⟩
+        simp only [List.mem_map, List.mem_range] at hc
+        obtain ⟨j, hj, rfl⟩ := hc
+        have := strided_within n a b st hs j hj
+        omega
+  | pick v ks =>
+    simp only [DiffVar.cols] at h
+    split at h
+    · cases h
+    · rename_i n hn
+      simp only [bind, Except.bind] at h
+      cases hm : List.mapM (Heap.normIdx n) ks with
+      | error e => simp [hm] at h
+      | ok js =>
+        simp only [hm, Except.ok.injEq] at h; subst h
+        refine ⟨v, n, hn, fun c hc => ?_, fun _ hne => absurd rfl (hne v ks)⟩
+        simp only [List.mem_map] at hc
+        obtain ⟨j, hj, rfl⟩ := hc
+        have := mapM_normIdx_lt hm j hj
+        omega
+
+/-- a reversed slice pairs the equation elements with the variable's elements in *reverse* order: `x[3:0:-1]` of a
+variable at offset 2 selects columns 5, 4, 3 in that order (the triplets keep the order, nothing is sorted) -/
+example : (DiffVar.strided 1 (some 3) (some 0) (-1)).cols [2, 4] = .ok [5, 4, 3] := by decide
+example : (DiffVar.pick 1 [3, 1, -2]).cols [2, 4] = .ok [5, 3, 4] := by decide
 
 /-- a whole variable as `diff_var` selects exactly its range, in order -/
 theorem C04_cols_whole (vars : List Nat) (v n : Nat) (h : vars[v]? = some n) :
